@@ -14,11 +14,15 @@ import (
 	"errors"
 	"fmt"
 	"net/http/httptest"
+	"os"
 	"reflect"
+	"regexp"
 	"sort"
 	"strconv"
 	"strings"
 	"sync"
+	"time"
+	"sync/atomic"
 
 	"github.com/go-playground/validator/v10"
 	"rivaas.dev/app"
@@ -287,6 +291,86 @@ type caseT struct {
 	// 4 = the value is handed over as a pointer to the pointer to the struct
 	Variant int  `json:",omitempty"`
 	Auto    bool // StrategyAuto instead of StrategyTags
+	// Interfere: between the repetitions of the case another call is made on the same Validator (the case's own,
+	// the shared one, or the package-level default) for the same type with other per-call options — 1 WithMessageFunc
+	// for the common tags, 2 WithMessages, 3 WithFieldNameMapper, 4 a redactor that covers everything, 5 other limits,
+	// 6 all of them. Nothing of that call may show in the next one: the repetitions (messages and meta included)
+	// must stay identical. With variants 1 and 2 the Validator's base configuration then also carries a message
+	// function and a message for a tag the generated rules do not use.
+	Interfere int `json:",omitempty"`
+	// Ctx: the context the call is made under — 0 a live one; 1 a cancelled context as the ctx argument; 2 a cancelled
+	// context through validation.WithContext; 3 one past its deadline through WithContext. Through the app layer the
+	// request's context is replaced inside the handler, before it binds. The result is no function of the context.
+	Ctx int `json:",omitempty"`
+	// Load: that many other validations are in flight (blocked inside a ValidateContext method) on the same
+	// Validator while the case's call is made
+	Load int `json:",omitempty"`
+	// Bulk: the body is generated — an array of that many small objects under "items" plus a top-level field that
+	// violates its rule (bodies with more than 10 000 paths)
+	Bulk int `json:",omitempty"`
+	// Limits: how "no limit" is spelled in the call — 0 the options are left out; 1 WithMaxErrors(0) and
+	// WithMaxFields(0) are passed explicitly (documented: unlimited / the default of 10000); 2 a per-call
+	// WithMaxErrors(-1) (never validated for a call: every test on it is `> 0`, so it means unlimited too).
+	// Applies where the case's own limit is 0.
+	Limits int `json:",omitempty"`
+}
+
+// blocker: a value whose ValidateContext parks until released (a slow database lookup)
+type blocker struct {
+	in *atomic.Int32
+	ch chan struct{}
+}
+
+func (b *blocker) ValidateContext(context.Context) error {
+	b.in.Add(1)
+	<-b.ch
+	return nil
+}
+
+// underLoad runs f while n other validations are blocked inside the Validator the case uses.
+func underLoad(c *caseT, n int, f func()) {
+	var in, gone atomic.Int32
+	ch := make(chan struct{})
+	var wg sync.WaitGroup
+	vv := sharedValidator
+	if caseValidator != nil {
+		vv = caseValidator
+	}
+	pkg := c.Pkg || c.ViaApp
+	for i := 0; i < n; i++ {
+		wg.Add(1)
+		go func() {
+			defer wg.Done()
+			defer gone.Add(1) // a call that was refused never parks
+			defer func() { _ = recover() }()
+			b := &blocker{in: &in, ch: ch}
+			if pkg {
+				_ = validation.Validate(context.Background(), b, validation.WithStrategy(validation.StrategyInterface))
+			} else {
+				_ = vv.Validate(context.Background(), b, validation.WithStrategy(validation.StrategyInterface))
+			}
+		}()
+	}
+	for deadline := time.Now().Add(5 * time.Second); int(in.Load())+int(gone.Load()) < n && time.Now().Before(deadline); {
+		time.Sleep(time.Millisecond)
+	}
+	f()
+	close(ch)
+	wg.Wait()
+}
+
+func caseContext(c *caseT) context.Context {
+	switch c.Ctx {
+	case 1, 2:
+		ctx, cancel := context.WithCancel(context.Background())
+		cancel()
+		return ctx
+	case 3:
+		ctx, cancel := context.WithDeadline(context.Background(), time.Unix(1, 0))
+		_ = cancel
+		return ctx
+	}
+	return context.Background()
 }
 
 // ---------------------------------------------------------------- generators
@@ -734,7 +818,7 @@ func genCase(r *hx.Rand, tier string) caseT {
 	c.Pkg = r.Chance(1, 4)
 	c.ViaApp = c.Mode == 0 && r.Chance(1, 4)
 	if c.ViaApp {
-		c.AppVia = r.Intn(6)
+		c.AppVia = hx.Pick(r, []int{0, 1, 2, 3, 4, 5, 7})
 		if c.Named != "" && r.Chance(1, 2) {
 			c.AppVia = 6
 		}
@@ -764,6 +848,19 @@ func genCase(r *hx.Rand, tier string) caseT {
 		if r.Chance(1, 4) {
 			c.RedactSub = hx.Pick(r, []string{"secret", "pass", "user", "name", "a"})
 		}
+	}
+	if r.Chance(1, 6) {
+		c.Ctx = r.Range(1, 3)
+	}
+	if r.Chance(1, 5) {
+		c.Limits = r.Range(1, 2)
+	}
+	if r.Chance(1, 150) {
+		c.Load = 1001
+	}
+	// other calls with other per-call options on the same Validator between the repetitions
+	if r.Chance(1, 4) {
+		c.Interfere = r.Range(1, 6)
 	}
 	return c
 }
@@ -814,6 +911,64 @@ func elementRule(tag string, levels int) string {
 		tag = strings.Join(toks[at+1:], ",")
 	}
 	return tag
+}
+
+// varEnt: what validator.Var reports for the value at a location (field and element indices from the root)
+// under a tag; the paths a violation reveals are relative to the location ("" itself, ".a.0" nested)
+type varEnt struct {
+	loc   []int
+	tag   string
+	viols []violT
+}
+
+func addVar(tab *[]varEnt, loc []int, tag string, v reflect.Value) {
+	if tag == "" || !v.IsValid() || !v.CanInterface() {
+		return
+	}
+	viols, panicked := varViols("", v, tag)
+	if panicked {
+		return
+	}
+	*tab = append(*tab, varEnt{append([]int(nil), loc...), tag, viols})
+}
+
+// encShape writes the shape of v (reflect API only) and collects the Var table. tag is the validate tag of the
+// last struct field passed, lv the index steps since (the harness's own elementRule gives the element's rule).
+func encShape(l *hx.Line, v reflect.Value, loc []int, tag string, lv int, tab *[]varEnt) {
+	switch v.Kind() {
+	case reflect.Pointer:
+		if v.IsNil() {
+			l.Tok("Z")
+			return
+		}
+		l.Tok("Q")
+		encShape(l, v.Elem(), loc, tag, lv, tab)
+	case reflect.Struct:
+		t := v.Type()
+		l.Tok("T").Nat(t.NumField())
+		for i := 0; i < t.NumField(); i++ {
+			f := t.Field(i)
+			ft := f.Type
+			if ft.Kind() == reflect.Pointer {
+				ft = ft.Elem()
+			}
+			vt := f.Tag.Get("validate")
+			l.Str(f.Name).Str(f.Tag.Get("json")).Bool(f.Anonymous).Bool(ft.Kind() == reflect.Struct).Str(vt)
+			cl := append(append([]int(nil), loc...), i)
+			addVar(tab, cl, vt, v.Field(i))
+			encShape(l, v.Field(i), cl, vt, 0, tab)
+		}
+	case reflect.Slice, reflect.Array:
+		l.Tok("S").Nat(v.Len())
+		et := elementRule(tag, lv+1)
+		for j := 0; j < v.Len(); j++ {
+			cl := append(append([]int(nil), loc...), j)
+			addVar(tab, cl, et, v.Index(j))
+			encShape(l, v.Index(j), cl, tag, lv+1, tab)
+		}
+	default:
+		l.Tok("X")
+	}
 }
 
 // violT is one validator error: its tag and the paths whose values printing e.Value() reveals.
@@ -1146,10 +1301,73 @@ type obsT struct {
 	other  string
 	// clobbered: the callee wrote into the spare capacity of the caller's option slice
 	clobbered bool
+	// texts: messages and meta of every field error, in order (determinism bit only)
+	texts []string
 }
 
 func (o *obsT) key() string {
 	return fmt.Sprint(o.pm, "|", o.leaves, "|", o.kind, o.trunc, o.fields, o.leak, o.other)
+}
+
+// detKey: everything of the result that must not differ between repetitions
+func (o *obsT) detKey() string { return o.key() + fmt.Sprintf("|%q", o.texts) }
+
+var addrRe = regexp.MustCompile(`0x[0-9a-f]{6,}`)
+
+func interferingOptions(kind int) []validation.Option {
+	var out []validation.Option
+	if kind == 1 || kind == 6 {
+		for _, tag := range []string{"required", "min", "max", "email", "oneof", "len", "gte", "lte", "alpha", "numeric"} {
+			out = append(out, validation.WithMessageFunc(tag, func(param string, _ reflect.Kind) string { return "INTERFERED " + param }))
+		}
+	}
+	if kind == 2 || kind == 6 {
+		out = append(out, validation.WithMessages(map[string]string{"required": "INTERFERED", "min": "INTERFERED", "max": "INTERFERED", "email": "INTERFERED", "oneof": "INTERFERED"}))
+	}
+	if kind == 3 || kind == 6 {
+		out = append(out, validation.WithFieldNameMapper(func(s string) string { return "X_" + strings.ToUpper(s) }))
+	}
+	if kind == 4 || kind == 6 {
+		out = append(out, validation.WithRedactor(func(string) bool { return true }))
+	}
+	if kind == 5 || kind == 6 {
+		out = append(out, validation.WithMaxErrors(1), validation.WithMaxFields(1))
+	}
+	return out
+}
+
+// interfere makes one call with other per-call options on the Validator the case uses, for the same type and body.
+func interfere(c *caseT, rt reflect.Type) {
+	defer func() { _ = recover() }()
+	body := []byte(c.Body)
+	ptr := reflect.New(rt)
+	_ = json.Unmarshal(body, ptr.Interface())
+	opts := interferingOptions(c.Interfere)
+	switch {
+	case c.Mode == 2:
+		opts = append(opts, validation.WithRunAll(true))
+	case c.Mode == 3:
+		opts = append(opts, validation.WithStrategy(validation.StrategyInterface))
+	case !c.Auto:
+		opts = append(opts, validation.WithStrategy(validation.StrategyTags))
+	}
+	ctx := context.Background()
+	pm, _ := validation.ComputePresence(body)
+	vv := sharedValidator
+	if caseValidator != nil {
+		vv = caseValidator
+	}
+	pkg := c.Pkg || c.ViaApp
+	switch {
+	case c.Mode == 0 && pkg:
+		_ = validation.ValidatePartial(ctx, ptr.Interface(), pm, opts...)
+	case c.Mode == 0:
+		_ = vv.ValidatePartial(ctx, ptr.Interface(), pm, opts...)
+	case pkg:
+		_ = validation.Validate(ctx, ptr.Interface(), opts...)
+	default:
+		_ = vv.Validate(ctx, ptr.Interface(), opts...)
+	}
 }
 
 var sharedValidator = validation.MustNew()
@@ -1169,6 +1387,16 @@ func getApp() *app.App {
 				h(c)
 			}
 		})
+		// the same behind a before-handler that has a look at the JSON body first (an audit / tenant guard)
+		theApp.PATCH("/c05b", func(c *app.Context) {
+			if h := appHandler; h != nil {
+				h(c)
+			}
+		}, app.WithBefore(func(c *app.Context) {
+			var seen map[string]any
+			_ = c.BindOnly(&seen)
+			c.Next()
+		}))
 	})
 	return theApp
 }
@@ -1217,9 +1445,15 @@ func observe(c *caseT, rt reflect.Type, secrets []string) (o obsT) {
 	}
 	if c.MaxErrors > 0 {
 		opts = append(opts, validation.WithMaxErrors(c.MaxErrors))
+	} else if c.Limits == 1 {
+		opts = append(opts, validation.WithMaxErrors(0))
+	} else if c.Limits == 2 && c.Variant != 1 && c.Variant != 2 {
+		opts = append(opts, validation.WithMaxErrors(-1))
 	}
 	if c.MaxFields > 0 {
 		opts = append(opts, validation.WithMaxFields(c.MaxFields))
+	} else if c.Limits == 1 {
+		opts = append(opts, validation.WithMaxFields(0))
 	}
 	if rd := redactor(c); rd != nil {
 		opts = append(opts, validation.WithRedactor(rd))
@@ -1232,10 +1466,19 @@ func observe(c *caseT, rt reflect.Type, secrets []string) (o obsT) {
 			}
 		}()
 		ctx := context.Background()
+		if c.Ctx == 1 {
+			ctx = caseContext(c)
+		} else if c.Ctx >= 2 {
+			opts = append(opts, validation.WithContext(caseContext(c)))
+		}
 		switch {
 		case c.Mode == 0 && c.ViaApp:
 			// the whole path of a PATCH handler: bind the body, presence from the raw body, partial validation
-			req := httptest.NewRequest("PATCH", "/c05", bytes.NewReader(body))
+			target := "/c05"
+			if c.AppVia == 7 {
+				target = "/c05b"
+			}
+			req := httptest.NewRequest("PATCH", target, bytes.NewReader(body))
 			req.Header.Set("Content-Type", []string{"application/json", "application/json; charset=utf-8", "application/merge-patch+json",
 				"Application/JSON", "application/merge-patch+json; charset=utf-8"}[len(c.Body)%5])
 			if c.AppVia == 5 {
@@ -1251,7 +1494,10 @@ func observe(c *caseT, rt reflect.Type, secrets []string) (o obsT) {
 			ran := false
 			appHandler = func(ac *app.Context) {
 				ran = true
-				if ac.Presence() != nil {
+				if c.Ctx != 0 {
+					ac.Request = ac.Request.WithContext(caseContext(c))
+				}
+				if ac.Presence() != nil && c.AppVia != 7 {
 					o.clobbered = true // presence of an earlier request (nothing has been bound in this one yet)
 				}
 				defer func() {
@@ -1273,15 +1519,24 @@ func observe(c *caseT, rt reflect.Type, secrets []string) (o obsT) {
 					_ = ac.BindOnly(&first)
 					verr = ac.Bind(ptr.Interface(), app.WithPartial(), app.WithValidationOptions(opts...))
 				case 6:
+					// the bind options come as a slice with spare capacity (a shared `common` list): a helper that
+					// appends to it in place writes into the caller's backing array
+					bopts := append(make([]app.BindOption, 0, 4), app.WithValidationOptions(opts...))
 					switch c.Named {
 					case "FullA":
-						_, verr = app.BindPatch[FullA](ac, app.WithValidationOptions(opts...))
+						_, verr = app.BindPatch[FullA](ac, bopts...)
 					case "FullE":
-						_, verr = app.BindPatch[FullE](ac, app.WithValidationOptions(opts...))
+						_, verr = app.BindPatch[FullE](ac, bopts...)
 					case "FullU":
-						_, verr = app.BindPatch[FullU](ac, app.WithValidationOptions(opts...))
+						_, verr = app.BindPatch[FullU](ac, bopts...)
 					default:
-						verr = ac.Bind(ptr.Interface(), app.WithPartial(), app.WithValidationOptions(opts...))
+						verr = ac.Bind(ptr.Interface(), append(bopts, app.WithPartial())...)
+						bopts = bopts[:2]
+					}
+					for _, spare := range bopts[len(bopts):cap(bopts)] {
+						if spare != nil {
+							o.clobbered = true
+						}
 					}
 				default:
 					verr = ac.Bind(ptr.Interface(), app.WithPartial(), app.WithValidationOptions(opts...))
@@ -1305,6 +1560,11 @@ func observe(c *caseT, rt reflect.Type, secrets []string) (o obsT) {
 				base = append([]validation.Option{}, opts...)
 				base = append(base, validation.WithMaxErrors(c.MaxErrors+1))
 				call = []validation.Option{validation.WithMaxErrors(c.MaxErrors)}
+			}
+			if c.Interfere > 0 {
+				base = append(append([]validation.Option{}, base...),
+					validation.WithMessageFunc("uuid4", func(string, reflect.Kind) string { return "must be a version 4 UUID" }),
+					validation.WithMessages(map[string]string{"uuid4": "uuid"}))
 			}
 			vv := caseValidator
 			if vv == nil {
@@ -1368,6 +1628,19 @@ func observe(c *caseT, rt reflect.Type, secrets []string) (o obsT) {
 			hidden = "1"
 		}
 		o.fields = append(o.fields, [3]string{f.Path, f.Code, hidden})
+		mk := make([]string, 0, len(f.Meta))
+		for k, mv := range f.Meta {
+			// no addresses: a value with pointers inside is compared through its JSON rendering
+			if js, jerr := json.Marshal(mv); jerr == nil {
+				mk = append(mk, k+"="+string(js))
+			} else {
+				mk = append(mk, k+"="+fmt.Sprintf("%T", mv))
+			}
+		}
+		sort.Strings(mk)
+		// every repetition unmarshals the body afresh: the addresses of pointer fields differ, and the code's
+		// fmt.Sprint of a struct value prints them
+		o.texts = append(o.texts, addrRe.ReplaceAllString(f.Message, "PTR"), addrRe.ReplaceAllString(strings.Join(mk, ","), "PTR"))
 		text += "\x00" + f.Message + "\x00" + f.Error()
 		for _, mv := range f.Meta {
 			text += "\x00" + fmt.Sprint(mv)
@@ -1513,7 +1786,29 @@ func hasLowSibling(v any) bool {
 	return false
 }
 
+var bulkT = &TypeT{Fields: []FieldT{
+	{JSON: "items", Kind: "sstruct", Tag: "", Sub: &TypeT{Fields: []FieldT{{JSON: "sku", Kind: "string", Tag: "min=1"}, {JSON: "qty", Kind: "int", Tag: "min=1"}}}},
+	{JSON: "name", Kind: "string", Tag: "min=3"},
+	{JSON: "zip", Kind: "string", Tag: "min=5"},
+}}
+
+func bulkBody(n int) string {
+	var b strings.Builder
+	b.WriteString(`{"items":[`)
+	for i := 0; i < n; i++ {
+		if i > 0 {
+			b.WriteByte(',')
+		}
+		fmt.Fprintf(&b, `{"sku":"s%d","qty":%d}`, i, 1+i%7)
+	}
+	b.WriteString(`],"name":"ab","zip":"12"}`)
+	return b.String()
+}
+
 func emit(id string, c caseT, st *hx.Stats) string {
+	if c.Bulk > 0 {
+		c.T, c.Named, c.Body = bulkT, "", bulkBody(c.Bulk)
+	}
 	var rt reflect.Type
 	if c.Named != "" {
 		rt = namedTypes[c.Named]
@@ -1614,6 +1909,26 @@ func emit(id string, c caseT, st *hx.Stats) string {
 			promotedRule = true
 		}
 	}
+	// the shape of the value as reflect shows it, and validator.Var at every location that has a rule: the
+	// model resolves the paths itself (partial mode)
+	l.Tok("T")
+	var vtab []varEnt
+	if c.Mode == 0 {
+		encShape(l, ptr, nil, "", 0, &vtab)
+	} else {
+		l.Tok("X")
+	}
+	l.Tok("W").Nat(len(vtab))
+	for _, e := range vtab {
+		l.Nat(len(e.loc))
+		for _, i := range e.loc {
+			l.Nat(i)
+		}
+		l.Str(e.tag).Nat(len(e.viols))
+		for _, t := range e.viols {
+			l.Str(t.tag).Strs(t.shows)
+		}
+	}
 	var full []fullT
 	if c.Mode == 1 || c.Mode == 2 {
 		var ok bool
@@ -1671,10 +1986,25 @@ func emit(id string, c caseT, st *hx.Stats) string {
 	caseValidator = nil
 	o := observe(&c, rt, secrets)
 	det := !o.clobbered
+	if c.Load > 0 {
+		// the same call while many other validations are in flight on the same Validator
+		underLoad(&c, c.Load, func() {
+			o2 := observe(&c, rt, secrets)
+			if o2.detKey() != o.detKey() {
+				det = false
+			}
+		})
+	}
 	for i := 0; i < 8; i++ {
+		if c.Interfere > 0 && i%2 == 0 {
+			interfere(&c, rt)
+		}
 		o2 := observe(&c, rt, secrets)
-		if o2.key() != o.key() || o2.clobbered {
+		if o2.detKey() != o.detKey() || o2.clobbered {
 			det = false
+			if os.Getenv("C05_DEBUG") != "" {
+				fmt.Fprintf(os.Stderr, "DET %d\n%s\n%s\n", i, o.detKey(), o2.detKey())
+			}
 		}
 	}
 	if o.other != "" {
@@ -1695,7 +2025,22 @@ func emit(id string, c caseT, st *hx.Stats) string {
 		st.Count("mode_" + []string{"partial", "full", "runall", "interface"}[c.Mode])
 		st.Count("obs_" + o.kind)
 		if c.ViaApp {
-			st.Count("via_app_context_" + []string{"bind_withpartial", "bindonly_then_validate", "bind_validationoption_partial", "bind_withpresence", "second_bind_in_request", "after_another_request", "generic_bindpatch"}[c.AppVia])
+			st.Count("via_app_context_" + []string{"bind_withpartial", "bindonly_then_validate", "bind_validationoption_partial", "bind_withpresence", "second_bind_in_request", "after_another_request", "generic_bindpatch", "behind_a_before_handler_that_binds"}[c.AppVia])
+		}
+		if c.Ctx > 0 {
+			st.Count("context_" + []string{"", "cancelled_argument", "cancelled_withcontext", "deadline_exceeded_withcontext"}[c.Ctx])
+		}
+		if c.Limits > 0 && (c.MaxErrors == 0 || c.MaxFields == 0) {
+			st.Count("no_limit_spelled_" + []string{"", "explicit_zero", "negative_maxerrors"}[c.Limits])
+		}
+		if c.Load > 0 {
+			st.Count("under_load_1001_validations_in_flight")
+		}
+		if c.Bulk > 0 {
+			st.Count("bulk_body_over_10000_paths")
+		}
+		if c.Interfere > 0 {
+			st.Count("interfering_call_between_repetitions_" + []string{"", "messagefunc", "messages", "fieldnamemapper", "redactor", "limits", "all"}[c.Interfere])
 		}
 		if c.Variant != 0 {
 			st.Count("variant_" + []string{"", "base_options", "base_options_overridden", "validate_with_partial_option", "pointer_to_pointer"}[c.Variant])
@@ -1737,6 +2082,9 @@ func emit(id string, c caseT, st *hx.Stats) string {
 			st.Count("empty_presence")
 		}
 		st.Count("depth_" + depthBucket(data))
+	}
+	if c.Bulk > 0 {
+		c.Body, c.T = "", nil // regenerated from Bulk on replay
 	}
 	return l.String() + hx.Comment(c)
 }
@@ -1800,6 +2148,11 @@ func uniq(s []string) []string {
 }
 
 // fixed witnesses: the findings of DESIGN.md §7 and boundary cases
+// bulkCases run in the thorough tier only: the driver's oracle is quadratic in the number of paths (≈ 80 s)
+func bulkCases() []caseT {
+	return []caseT{{Bulk: 3400}} // 10 203 paths
+}
+
 func fixedCases() []caseT {
 	userT := &TypeT{Fields: []FieldT{
 		{JSON: "user", Kind: "struct", Tag: "required", Sub: &TypeT{Fields: []FieldT{{JSON: "name", Kind: "string", Tag: "required,min=3"}}}},
@@ -1837,6 +2190,10 @@ func fixedCases() []caseT {
 		{Body: `{"id":["q3_wvxk",{"n":3,"user":"q4_wvxkjq"},{"n":4,"token":"q5_wvxkjq"}]}`, T: &TypeT{Fields: []FieldT{{JSON: "id", Kind: "sany", Tag: "omitempty,max=2"}}}, Mode: 1, Redact: []string{"id.1.user", "id.2.token"}},            // secrets below interface slots of a failing container
 		{Body: `{"meta":{"auth":{"token":"q6_wvxkjq"},"a":"x"}}`, T: &TypeT{Fields: []FieldT{{JSON: "meta", Kind: "many", Tag: "max=1"}}}, Mode: 1, Redact: []string{"meta.auth.token"}},
 		{Body: `{"id":"x","kind":"q7_wv\t","name":"n","token":"q8_wvxkjq\""}`, Named: "FullE", Mode: 1, Redact: []string{"kind", "token"}},                                                                                 // a redacted value that quoting escapes
+		{Body: `{"user":{"name":"xy"},"user-id":1,"a":"q"}`, T: userT, Ctx: 2},               // a cancelled context changes nothing
+		{Body: `{"user":{"name":"xy"},"user-id":1,"a":"q"}`, T: userT, Ctx: 3, ViaApp: true}, // … nor does one past its deadline, through the app layer
+		{Body: `{"user":{"name":"xy"},"a":"q"}`, T: userT, Load: 1001},                       // 1001 other validations in flight on the same Validator
+		{Body: `{"email":"x","age":9,"nerr":1}`, Named: "FullV", Mode: 2, Load: 1001, Pkg: true},
 		{Body: `{"1":"abc","2":{"3":"x"}}`, T: &TypeT{Fields: []FieldT{{JSON: "1", Kind: "string", Tag: "email"}, {JSON: "2", Kind: "struct", Sub: &TypeT{Fields: []FieldT{{JSON: "3", Kind: "string", Tag: "min=2"}}}}}}}, // K05d
 	}
 }
@@ -1851,6 +2208,11 @@ func main() {
 		st := hx.NewStats()
 		for i, c := range fixedCases() {
 			fmt.Fprintln(w, emit(fmt.Sprintf("c05-fix-%d", i), c, st))
+		}
+		if a.Tier == "thorough" && a.Seed%1000 == 0 {
+			for i, c := range bulkCases() {
+				fmt.Fprintln(w, emit(fmt.Sprintf("c05-bulk-%d", i), c, st))
+			}
 		}
 		for i := 0; i < a.N; i++ {
 			c := genCase(r, a.Tier)
